@@ -5,6 +5,18 @@ HERE = os.path.dirname(os.path.dirname(os.path.abspath(__file__)))
 ALL = ["C%02d" % i for i in range(1, 21)]
 
 CHECKS = {
+ "C15": dict(
+   level="fault_enumeration",
+   technique="fault injection by a harness-side spy multistore: for sampled blocks every (wrapped step, k-th KV operation) crash point of the begin/end block hooks is injected on forks of the committed state; plus environment-fault episodes and an always-on panic-escape monitor on real ABCI blocks",
+   text="At sampled block boundaries of the mixed CDP workload (pending liquidations, live auctions of both generations, limit bids, lockers) the hooks of all modules are re-run on CacheMultiStore forks under a decorator that sees every ApplyFuncIfNoError branch, its KV operations and its Write(); a panic is injected before the k-th operation of step s for every s and k (exhaustive per explored block). Oracle: the hook returns normally, the failed step's branch is never written, no write of it reaches an enclosing context, and the resulting state is identical to the run faulted at k=1 (so nothing of the step is visible and the remaining units were processed identically). The recording run is validated against the real BeginBlock. Environment faults (inactive/absent/zero prices, drained module accounts, deleted auction params, changed whitelisting, vault counter != list length, market crash with long gaps) are applied to reachable states before real blocks; an escaping panic or a half-applied seizure is a violation.",
+   note="Injected faults are panics at store accesses of steps opened by types.ApplyFuncIfNoError (recognised by the caller frame of Context.CacheContext); unwrapped code is only exposed to the environment faults. Exhaustive per explored block, not over all reachable blocks. Generation-1 liquidation/auction hooks are not wired into the module manager and are not explored.",
+   design="§4 C15"),
+ "C18": dict(
+   level="exploration",
+   technique="metamorphic runtime monitoring of the real accrual and rate functions (relations between outputs on related inputs) plus an independent 320-bit big.Float reference; in-situ twin positions with split vs merged interest calculation",
+   text="Full grid (14 principals to 2^63-1, 20 rates in [0,10] incl. 1e-18 steps, 21 times 0..30y incl. adjacent pairs) plus 60k random points per shard for CalculationOfRewards (vault stability fee and locker savings), CalculateLendReward, CalculateBorrowInterest, CalculateStableInterest: non-negative, zero at t=0, monotone in t/P/r, sub-additive within the derived last-place tolerance, reference value; borrow/lend APR curves over 14k parameter sets and 497k utilisation points: monotone, base at U=0, continuous at the kink, lend <= borrow; twin vaults/borrows/lends with split vs merged calculation on stored records.",
+   note="Principals above int64 are excluded per the quantifier. Locker savings in situ are covered through the shared CalculationOfRewards only.",
+   design="§4 C18"),
  "C04": dict(
    level="exploration",
    technique="runtime invariant monitor at quiescent points (after every tx, after EndBlock+Commit, after BeginBlock) over a seeded hostile liquidity workload of real signed transactions on 3 apps x 4 pairs",
